@@ -522,7 +522,16 @@ def run_hist(t, v, ops):
         (_, again) = hashes_during(lambda: E(lambda: x.hash_tree_root().hex()))
         put('%d.pagain' % k, str(again))
         put('%d.pshare' % k, E(lambda: share_info(old_backing, x.get_backing())))
+        put('%d.pshape' % k, E(lambda: shape_digest(x.get_backing())[:8].hex()))
     return ';'.join(out)
+
+
+def shape_digest(n):
+    """structural digest of a backing tree (shape and leaves); drift stream only"""
+    import hashlib
+    if n.is_leaf():
+        return hashlib.sha256(b'L' + bytes(n.merkle_root())).digest()
+    return hashlib.sha256(b'P' + shape_digest(n.get_left()) + shape_digest(n.get_right())).digest()
 
 
 def share_info(a, b):
